@@ -1,15 +1,51 @@
-(* Properties/C05.v — cache effectiveness (label: partial): what is proved here
-   is that a call served from the cache does not run the function at all, that
-   the value served is the recorded one, and that lookups never change the tree,
-   the caches or the log (so deciding "hit or miss" has no side effect).  That
-   the lookup succeeds whenever nothing observed has changed is the content of
-   the simulation theorem of C01 (Core model) and is exercised by T2/T3. *)
+(* Properties/C05.v — cache effectiveness.
+   MAIN THEOREM (C05_unchanged_rebuild_hits_everything, Proofs/CoreRebuild*.v, on the Core
+   model): after a committed build in which every call succeeded and which did not find a
+   regular file of somebody else at a target path, the same build on the tree it left
+   (nothing changed) returns the same value, re-runs NO function (its log is the root entry
+   followed by the root-level answers of the first build) and leaves every node of the
+   tree identical — same bytes, modification time and inode: outputs are put back, not
+   rewritten.  Holds for any previous cache of the first build (which may itself have mixed
+   hits and fresh runs), and for any number of further rebuilds (C05_every_further_rebuild).
+   NOT covered by the theorem (decided by T2/T3 on the implementation): builds containing
+   failed calls ("re-runs only calls that raised"), and the frame clause about unobserved
+   paths; Proofs/CoreRebuildOpen.v refutes two naive general statements of those clauses
+   with concrete programs (a function whose record contains a rejected attempt is re-run
+   by every build and rewrites its output, so METADATA readers of that output re-run too;
+   a foreign file planted below a directory the previous build created keeps that directory
+   from being cleaned away, which the program observes) — both behaviours are what the
+   property's text allows.
+   On the mechanism model: a call served from the cache does not run the function at all,
+   the value served is the recorded one, lookups never change the tree, the caches or the
+   log. *)
 From Coq Require Import List String Bool.
 From FB.Base Require Import PyVal Fs.
 From FB.Gen Require Import JsonUtilGen.
 From FB.Model Require Import Types Monad CreatedFiles SimpleOps Builder.
-From FB.Proofs Require Import ReplayLaws BuildFileLaws.
+From FB.Spec Require Import JsonSpec Prog Ref Oracle.
+From FB.Model Require Import Persist Core CoreOracle CoreCache.
+From FB.Proofs Require Import ReplayLaws BuildFileLaws CoreRebuildDefs CoreRebuildMain CoreRebuildIter.
 Import ListNotations.
+
+Theorem C05_unchanged_rebuild_hits_everything : forall fs cf old vers clock nextid root nm v s1 clock' nextid',
+  let cr1 := core_build fs cf old vers clock nextid root in
+  cr_outcome cr1 = inl v -> cr_state cr1 = Some s1 ->
+  fs_wf fs -> isdir fs cf = false -> sanitized vers = true ->
+  records_clean s1 = true -> records_distinct s1 = true -> no_foreign_targets fs cf old s1 ->
+  let cr2 := core_build (next_fs cf s1) cf (cache_of_state nm s1) vers clock' nextid' root in
+  cr_outcome cr2 = inl v /\
+  cr_log cr2 = LInvoke "<root>" None PNone PNone :: build_top fs cf old vers clock nextid root /\
+  (forall p, lookup (cr_tree cr2) p = lookup (cr_tree cr1) p).
+Proof. exact rebuild_hits_all. Qed.
+
+Theorem C05_unchanged_rebuild_runs_no_function : forall fs cf old vers clock nextid root nm v s1 clock' nextid',
+  let cr1 := core_build fs cf old vers clock nextid root in
+  cr_outcome cr1 = inl v -> cr_state cr1 = Some s1 ->
+  fs_wf fs -> isdir fs cf = false -> sanitized vers = true ->
+  records_clean s1 = true -> records_distinct s1 = true -> no_foreign_targets fs cf old s1 ->
+  let cr2 := core_build (next_fs cf s1) cf (cache_of_state nm s1) vers clock' nextid' root in
+  exists answers, cr_log cr2 = LInvoke "<root>" None PNone PNone :: answers /\ forallb is_answer answers = true.
+Proof. exact rebuild_runs_nothing. Qed.
 
 (* no invocation logged => the result does not depend on the function: it was not called *)
 Theorem C05_hit_does_not_call_function : forall p c f a kw fn fn' w w' res,
